@@ -1122,4 +1122,104 @@ theorem step_backup_current (w : World) (op : Op) (obs : List String) (i : Nat) 
   · refine ⟨o, ?_, rfl⟩
     rw [step_frame current w op obs i hti hlt]
     exact hget
+/-! ## created objects -/
+
+theorem runFn_created (T : Tables) (w : World) (i : Nat) (o : Obj) (cx : Ctx) (f : String) (env : List (String × Bool)) :
+    (runFn T w i o cx f env).created = none := by
+  unfold runFn; split <;> rfl
+
+/-- an operation that reports a created object appended exactly one object, at the next index -/
+theorem step_created (T : Tables) (w : World) (op : Op) (obs : List String) (j : Nat)
+    (h : (step T w op obs).created = some j) :
+    j = w.objs.length ∧ (step T w op obs).w.objs.length = w.objs.length + 1 := by
+  unfold step at h ⊢
+  cases hget : w.objs[op.target]? with
+  | none => simp [hget] at h
+  | some o =>
+    simp only [hget] at h ⊢
+    cases op with
+    | addAtom oi z n skip =>
+      simp only at h
+      split at h
+      · simp at h
+      · simp [runFn_created] at h
+    | addBond oi a b order skip =>
+      simp only at h
+      split at h
+      · simp at h
+      · simp [runFn_created] at h
+    | delAtom oi n skip =>
+      simp only at h
+      split at h
+      · simp at h
+      · simp [runFn_created] at h
+    | delBond oi a b skip =>
+      simp only at h
+      split at h
+      · simp at h
+      · simp [runFn_created] at h
+    | remap oi mp =>
+      simp only at h
+      split at h
+      · simp at h
+      · simp [runFn_created] at h
+    | copy oi kS kC =>
+      simp only at h ⊢
+      split at h
+      · simp at h
+      · rename_i hd
+        simp only [hd, if_false, Bool.false_eq_true]
+        simp only [Option.some.injEq] at h
+        exact ⟨h.symm, by simp⟩
+    | substructure oi atoms recalc =>
+      simp only at h ⊢
+      split at h; · simp at h
+      rename_i h1
+      split at h; · simp at h
+      rename_i h2
+      split at h; · simp at h
+      rename_i h3
+      split at h; · simp at h
+      rename_i h4
+      simp only [h1, h2, h3, h4, if_false, Bool.false_eq_true]
+      refine ⟨?_, ?_⟩
+      · split at h <;> (simp only [Option.some.injEq] at h; exact h.symm)
+      · split <;> simp [runFn_length]
+    | union oi p rmp cp =>
+      simp only at h ⊢
+      cases hgp : w.objs[p]? with
+      | none => simp [hgp] at h
+      | some other =>
+        simp only [hgp] at h ⊢
+        split at h; · simp at h
+        rename_i h1
+        split at h; · simp at h
+        rename_i h2
+        simp only [h1, h2, if_false, Bool.false_eq_true]
+        cases cp with
+        | true =>
+          simp only [if_true, Option.some.injEq] at h ⊢
+          exact ⟨h.symm, by simp⟩
+        | false => simp [runFn_created] at h
+    | fixStructure oi r => simp [runFn_created] at h
+    | calcLabels oi => simp [runFn_created] at h
+    | fixStereo oi => simp [runFn_created] at h
+    | cleanStereo oi => simp [runFn_created] at h
+    | flush oi kS kC => simp at h
+    | enter oi => simp [runFn_created] at h
+    | exitOk oi => simp [runFn_created] at h
+    | exitExc oi => simp [runFn_created] at h
+    | setCharge oi n c =>
+      simp only at h
+      split at h; · simp at h
+      split at h <;> simp at h
+    | setRadical oi n r =>
+      simp only at h
+      split at h <;> simp at h
+    | setXY oi n x y =>
+      simp only at h
+      split at h <;> simp at h
+    | setMeta oi k v => simp at h
+    | read oi k => simp at h
+
 end ChythonModel.Proofs.C13
